@@ -3,6 +3,8 @@ and adding static methods: a command must reach what the served pool's own class
 
 from __future__ import annotations
 
+from typing import Callable
+
 from asyncio_taskpool.pool import SimpleTaskPool, TaskPool
 
 
@@ -56,6 +58,12 @@ class ExtTaskPool(TaskPool):
         if self.is_locked:
             raise RuntimeError("refusing to cancel everything in a locked pool")
         super().cancel_all(msg=msg)
+
+    def notify(self, hook: Callable[[int], None], times: int = 1) -> int:
+        """Calls the hook (a function that returns nothing) a few times with the number of running tasks."""
+        for _ in range(max(0, min(times, 3))):
+            hook(self.num_running)
+        return times
 
     # --- static methods are public members, too
     @staticmethod
